@@ -25,6 +25,9 @@ pub struct OrdPlan {
     pub perms: Vec<Vec<usize>>,
     /// unrelated earlier inputs hashed on the same instance
     pub prehistory: Vec<Vec<u64>>,
+    /// number of calls on a tiny unrelated sequence between the sequence and each permutation (long-lived instance)
+    #[serde(default)]
+    pub between_calls: u32,
 }
 
 pub struct OrdSeq;
@@ -90,6 +93,14 @@ fn exec<H: Hasher + Default>(plan: &OrdPlan, ctx: &mut Ctx) -> Result<(), Violat
         ctx.count("probe:repeated-elements");
     }
     for perm in &plan.perms {
+        if plan.between_calls > 0 {
+            ctx.ev("many-unrelated-calls", plan.between_calls as u64);
+            ctx.count("fault:long-lived-instance-many-calls-in-between");
+            let filler: Vec<u64> = (0..l as u64).map(|k| u64::MAX - 17 - k).collect();
+            for _ in 0..plan.between_calls {
+                let _ = sk.hash_set(&filler);
+            }
+        }
         let s: Vec<u64> = perm.iter().map(|i| plan.seq[*i]).collect();
         ctx.ev("deliver-permutation", s.len() as u64);
         for i in perm {
@@ -176,7 +187,8 @@ impl Scenario for OrdSeq {
                 (0..k).map(|_| rng.below(50)).collect()
             })
             .collect();
-        OrdPlan { hash, m, l, seq, perms, prehistory }
+        let between_calls = if !big && m <= 8 && rng.chance(0.01) { *rng.pick(&[254u32, 255, 256, 65_534, 65_535, 65_536]) } else { 0 };
+        OrdPlan { hash, m, l, seq, perms, prehistory, between_calls }
     }
     fn execute(&self, plan: &OrdPlan, ctx: &mut Ctx) -> Result<(), Violation> {
         match plan.hash {
@@ -191,6 +203,11 @@ impl Scenario for OrdSeq {
         if !plan.prehistory.is_empty() {
             let mut p = plan.clone();
             p.prehistory.clear();
+            out.push(p);
+        }
+        if plan.between_calls > 0 {
+            let mut p = plan.clone();
+            p.between_calls = 0;
             out.push(p);
         }
         if plan.perms.len() > 1 {
